@@ -201,7 +201,7 @@ impl PoolEntry {
 		MethodDescriptor::try_from(pool.get_utf8(descriptor_index).context("while getting method type")?)
 	}
 
-	fn as_dynamic(&self, pool: &PoolRead, bootstrap_methods: &Option<Vec<BootstrapMethodRead>>) -> Result<ConstantDynamic> {
+	fn as_dynamic(&self, pool: &PoolRead, bootstrap_methods: &Option<Vec<BootstrapMethodRead>>, depth: usize) -> Result<ConstantDynamic> {
 		let PoolEntry::Dynamic { bootstrap_method_attribute_index, name_and_type_index } = *self else {
 			bail!("pool entry not `Dynamic`: {self:?}");
 		};
@@ -218,7 +218,7 @@ impl PoolEntry {
 		let arguments = {
 			let mut vec = Vec::with_capacity(method.arguments.len());
 			for &argument in &method.arguments {
-				let value = pool.get_loadable(argument, bootstrap_methods)
+				let value = pool.get_loadable_at_depth(argument, bootstrap_methods, depth + 1)
 					.with_context(|| anyhow!("while argument for `Dynamic` at index {bootstrap_method_attribute_index:?}: {name:?} {descriptor:?} {handle:?}"))?;
 				vec.push(value); // TODO: recursion
 			}
@@ -245,7 +245,7 @@ impl PoolEntry {
 		let arguments = {
 			let mut vec = Vec::with_capacity(method.arguments.len());
 			for &argument in &method.arguments {
-				let value = pool.get_loadable(argument, bootstrap_methods)
+				let value = pool.get_loadable_at_depth(argument, bootstrap_methods, 1)
 					.with_context(|| anyhow!("while argument for `InvokeDynamic` at index {bootstrap_method_attribute_index:?}: {name:?} {descriptor:?} {handle:?}"))?;
 				vec.push(value); // TODO: recursion
 			}
@@ -255,7 +255,7 @@ impl PoolEntry {
 		Ok(InvokeDynamic { name, descriptor, handle, arguments })
 	}
 
-	fn as_loadable(&self, pool: &PoolRead, bootstrap_methods: &Option<Vec<BootstrapMethodRead>>) -> Result<Loadable> {
+	fn as_loadable(&self, pool: &PoolRead, bootstrap_methods: &Option<Vec<BootstrapMethodRead>>, depth: usize) -> Result<Loadable> {
 		match self {
 			PoolEntry::Integer { .. } => Ok(Loadable::Integer(self.as_integer()?)),
 			PoolEntry::Float { .. } => Ok(Loadable::Float(self.as_float()?)),
@@ -265,7 +265,7 @@ impl PoolEntry {
 			PoolEntry::String { .. } => Ok(Loadable::String(self.as_string(pool)?)),
 			PoolEntry::MethodHandle { .. } => Ok(Loadable::MethodHandle(self.as_method_handle(pool)?)),
 			PoolEntry::MethodType { .. } => Ok(Loadable::MethodType(self.as_method_type(pool)?)),
-			PoolEntry::Dynamic { .. } => Ok(Loadable::Dynamic(self.as_dynamic(pool, bootstrap_methods)?)),
+			PoolEntry::Dynamic { .. } => Ok(Loadable::Dynamic(self.as_dynamic(pool, bootstrap_methods, depth)?)),
 			_ => bail!("pool entry is not loadable: {self:?}"),
 		}
 	}
@@ -507,7 +507,20 @@ impl PoolRead {
 	///
 	/// These are collected in the [`Loadable`] type.
 	pub(crate) fn get_loadable(&self, index: u16, bootstrap_methods: &Option<Vec<BootstrapMethodRead>>) -> Result<Loadable> {
-		self.get(index)?.as_loadable(self, bootstrap_methods).pool_context(index)
+		self.get_loadable_at_depth(index, bootstrap_methods, 0)
+	}
+
+	/// The maximal nesting depth of `Dynamic` constants used as bootstrap method arguments of other `Dynamic` constants.
+	///
+	/// A `Dynamic` constant is resolved together with its bootstrap method arguments. Without a bound, a constant that is
+	/// (directly or indirectly) its own argument would recurse forever.
+	const MAX_BOOTSTRAP_ARGUMENT_DEPTH: usize = 16;
+
+	fn get_loadable_at_depth(&self, index: u16, bootstrap_methods: &Option<Vec<BootstrapMethodRead>>, depth: usize) -> Result<Loadable> {
+		if depth > Self::MAX_BOOTSTRAP_ARGUMENT_DEPTH {
+			bail!("bootstrap method arguments are nested deeper than {} levels (pool index {index}): is a `Dynamic` constant its own argument?", Self::MAX_BOOTSTRAP_ARGUMENT_DEPTH);
+		}
+		self.get(index)?.as_loadable(self, bootstrap_methods, depth).pool_context(index)
 	}
 
 	pub(crate) fn get_constant_value(&self, index: u16) -> Result<ConstantValue> {
